@@ -1,7 +1,187 @@
 import Driver.Util
-/-! Line-protocol driver for C10 (not built yet). -/
+import GqlgenVerif.Model.Upload
+import GqlgenVerif.Gen.AddUploadGuards
+import GqlgenVerif.Gen.DecodeSites
+/-! Line-protocol driver for C10: runs the `Upload` model (with the guards / decode sites regenerated
+from /repo) on the cases printed by `go/harness/c10`. -/
+open GqlgenVerif GqlgenVerif.Upload
 namespace Driver.C10
-def step (_line : String) : String := "bad-op"
+
+def guards : Guards := Gen.AddUploadGuards.guards
+
+def bytesToString (bs : List Nat) : String :=
+  let ba : ByteArray := ⟨(bs.map (fun b => UInt8.ofNat b)).toArray⟩
+  match String.fromUTF8? ba with
+  | some s => s
+  | none => String.ofList (bs.map Char.ofNat)
+
+def unhexStr (h : String) : Option String := (unhex h).map bytesToString
+def unhexKey (h : String) : Option Key := (unhexStr h).map String.toList
+
+def hex4 (n : Nat) : String :=
+  String.ofList [nib (n / 4096 % 16), nib (n / 256 % 16), nib (n / 16 % 16), nib (n % 16)]
+
+def jsonQuote (s : List Char) : String :=
+  "\"" ++ String.join (s.map fun c =>
+    if c = '"' then "\\\"" else if c = '\\' then "\\\\"
+    else if c.toNat < 32 then "\\u" ++ hex4 c.toNat else String.singleton c) ++ "\""
+
+/-- prefix tokens: n t f N i<text> s<hex> u<id> a<k> o<k> (k<hex> node)* -/
+partial def parseNode : List String → Option (UV × List String)
+  | [] => none
+  | tok :: rest =>
+    let body := (tok.drop 1).toString
+    match tok.front with
+    | 'n' => some (.null, rest)
+    | 'N' => some (.nilmap, rest)
+    | 't' => some (.leaf "true".toList, rest)
+    | 'f' => some (.leaf "false".toList, rest)
+    | 'i' => some (.leaf body.toList, rest)
+    | 's' => (unhexStr body).map fun s => (.leaf (jsonQuote s.toList).toList, rest)
+    | 'u' => body.toNat?.map fun i => (.upload i, rest)
+    | 'a' => do
+      let n ← body.toNat?
+      let rec goA (k : Nat) (toks : List String) (acc : List UV) : Option (List UV × List String) :=
+        if k = 0 then some (acc.reverse, toks) else
+        match parseNode toks with
+        | some (v, r) => goA (k - 1) r (v :: acc)
+        | none => none
+      let (xs, r) ← goA n rest []
+      pure (.arr xs, r)
+    | 'o' => do
+      let n ← body.toNat?
+      let rec go (k : Nat) (toks : List String) (acc : List (Key × UV)) : Option (List (Key × UV) × List String) :=
+        if k = 0 then some (acc.reverse, toks) else
+        match toks with
+        | kt :: r1 =>
+          match unhexKey (kt.drop 1).toString, parseNode r1 with
+          | some key, some (v, r) => go (k - 1) r ((key, v) :: acc)
+          | _, _ => none
+        | [] => none
+      let (kvs, r) ← go n rest []
+      pure (.obj kvs, r)
+    | _ => none
+
+def parseTree (s : String) : Option UV :=
+  match parseNode (s.splitOn ",") with
+  | some (v, []) => some v
+  | _ => none
+
+partial def render (u : Nat → String) : UV → String
+  | .null => "null"
+  | .nilmap => "null"
+  | .leaf t => String.ofList t
+  | .upload i => u i
+  | .arr xs => "[" ++ ",".intercalate (xs.map (render u)) ++ "]"
+  | .obj kvs => "{" ++ ",".intercalate (kvs.map fun (k, v) => jsonQuote k ++ ":" ++ render u v) ++ "}"
+
+def auErr : AuErr → String
+  | .noPrefix => "prefix" | .nilPtr => "nilptr" | .badPath => "badpath"
+
+def panicName : Panic → String
+  | .typeAssert => "type-assert" | .indexRange => "index-range" | .nilMapWrite => "nil-map-write"
+
+def auRun (g : Guards) : UV → List (List Char) → Nat → String
+  | v, [], _ => "ok " ++ render (fun i => "{\"$u\":" ++ toString i ++ "}") v
+  | v, p :: ps, i =>
+    match addUpload g v p (.upload i) with
+    | .ok v' => auRun g v' ps (i + 1)
+    | .err e => s!"err {i} {auErr e}"
+    | .panic k => s!"panic {i} {panicName k}"
+
+def exitName : Exit → String
+  | .tooLarge => "too-large" | .badMultipart => "bad-multipart" | .firstNotOps => "first-not-ops"
+  | .opsDecode => "ops-decode" | .secondNotMap => "second-not-map" | .mapDecode => "map-decode"
+  | .partError => "part-error" | .emptyPaths => "empty-paths" | .readFile => "read-file"
+  | .createTemp => "create-temp" | .copyTemp => "copy-temp" | .closeTemp => "close-temp"
+  | .openTemp => "open-temp" | .addUpload e => "au-" ++ auErr e | .panicked _ => "recovered-panic"
+  | .missingKey => "missing-key" | .exec => "exec"
+
+def parseFault : String → Option Fault
+  | "n" => some .none | "x" => some .next | "r" => some .read | _ => none
+
+def parsePart (s : String) : Option Part :=
+  match s.splitOn ":" with
+  | [n, f, c, h, z, fl] => do
+    pure ⟨← unhexKey n, ← unhexKey f, ← unhexKey c, ← h.toNat?, ← z.toNat?, ← parseFault fl⟩
+  | _ => none
+
+def parseParts (s : String) : Option (List Part) :=
+  if s = "-" then some [] else (s.splitOn ";").mapM parsePart
+
+def parseMap (s : String) : Option MapClass :=
+  if s = "E" || s = "-" then some .err else
+  if s = "M" then some (.ok []) else
+  let body := (s.drop 1).toString
+  (body.splitOn "&").mapM (fun (e : String) =>
+    match e.splitOn "=" with
+    | [k, ps] => do
+      let key ← unhexKey k
+      let paths ← if ps = "" then some [] else (ps.splitOn "|").mapM unhexKey
+      pure (key, paths)
+    | _ => none) |>.map MapClass.ok
+
+def parseOps (s : String) : Option OpsClass :=
+  if s = "E" || s = "-" then some .err else
+  if s = "VN" then some (.ok .nilmap) else
+  (parseTree (s.drop 1).toString).map OpsClass.ok
+
+def mpRun (fields : List String) : String :=
+  match fields with
+  | [mu, mm, cl, dl, tl, fault, ct, _q, ops, mp, parts, term] =>
+    let r : Option String := do
+      let cfg : Cfg := ⟨← mu.toInt?, ← mm.toInt?⟩
+      let fs : FsPlan := ⟨fun _ => fault == "C", fun _ => false, fun _ => false⟩
+      let req : Req := {
+        cfg := cfg, contentLength := ← cl.toInt?, dlen := ← dl.toNat?, tail := ← tl.toNat?,
+        boundaryOk := ct == "ok", fs := fs, ops := ← parseOps ops, map := ← parseMap mp,
+        parts := ← parseParts parts, term := if term == "eof" then .eof else .err }
+      let res := run guards req
+      let rs := res.during.readers.reverse
+      let kind (i : Nat) : String :=
+        match rs.find? (·.id == i) with
+        | some r => s!"\{\"part\":{r.part},\"kind\":\"{if r.file.isSome then "f" else "m"}\"}"
+        | none => "\"?\""
+      let tree := if res.exit == .exec then render (fun i => "{\"$u\":" ++ kind i ++ "}") res.during.vars else "-"
+      let status := match res.exit.status with | some s => toString s | none => "-"
+      pure s!"{exitName res.exit} {status} during={res.during.live.length} tmp={res.final.live.length} openh={res.final.openH.length} mem={res.during.mem} disk={res.during.disk} off={res.during.off} readers={rs.length} tree={tree}"
+    r.getD "bad-op"
+  | _ => "bad-op"
+
+def classOf : String → Option BodyClass
+  | "null" => some .null | "ok" => some .ok | "err" => some .err | "plain" => some .plain | _ => none
+
+def siteOf (name : String) : Option Site :=
+  match Gen.DecodeSites.sites.find? (·.name == name) with
+  | some s => some s
+  | none => if name == "graphql" || name == "get" then some ⟨name, .value⟩ else none
+
+def envRun (name cls : String) : String :=
+  match siteOf name, classOf cls with
+  | some s, some c =>
+    match envelope s c with
+    | .clientError => s!"client-error {errStatus name}"
+    | .exec => "exec"
+    | .panic => "panic"
+  | _, _ => "any"
+
+/-- one line in, one line out -/
+def step (line : String) : String :=
+  match line.splitOn " " with
+  | ["au", t, ps] =>
+    match parseTree t, (ps.splitOn ";").mapM unhexKey with
+    | some v, some paths => auRun guards v paths 0
+    | _, _ => "bad-op"
+  | ["auorig", t, ps] =>       -- the code before the repair (history / mutation search)
+    match parseTree t, (ps.splitOn ";").mapM unhexKey with
+    | some v, some paths => auRun Guards.none v paths 0
+    | _, _ => "bad-op"
+  | "mp" :: fields => mpRun fields
+  | ["tr", name, cls] => if name == "form" then "any" else envRun name cls
+  | ["ws", _proto, phase, cls] => if cls == "-" || phase != "post" then "any" else envRun "ws" cls
+  | ["guards"] => reprStr guards
+  | _ => "bad-op"
+
 end Driver.C10
 
 def main : IO Unit := do
